@@ -103,6 +103,10 @@ impl Prop for C12P {
             }
         }
     }
+    fn page_guard(&self, tier: Tier, profile: Profile) -> bool {
+        let _ = (tier, profile);
+        true
+    }
     fn rule(&self) -> String {
         "every value the API returns that has a destructor or holds a borrow - DrainRow and DrainCol via remove_row/remove_col at every index and pop_row/pop_col, Rows, RowsMut, Col, ColMut (every column), Cells, CellsMut, TooDeeView and TooDeeViewMut of every window (and a nested view_mut of a leaked view_mut), IntoIter - on TooDee<Tracked> of every shape in the bound, exact and spare capacity, \
          consumed by every (front, back) split and then passed to mem::forget (items taken out are held and dropped later). Afterwards: shape invariant; every reachable cell live, canary-valid and pairwise distinct; the array is read through Index/rows/cells/col, two cells replaced, rows and columns pushed, inserted, removed and popped, then dropped; no double drop and no drop of a never-constructed value (the array may have lost elements, up to being empty). For IntoIter only the ledger clause applies. \
